@@ -2,6 +2,12 @@
 pub fn expected(prop: &str) -> &'static [&'static str] {
     match prop {
         "C01" | "C02" | "C04" | "C15" => &["insert_next_to_single_item_child", "bucket_resplit", "split_collapsed", "tree_count_grown", "tree_count_shrunk", "single_bucket_shortcut_taken_from_forest", "single_bucket_left", "zero_normal_split", "recycled_ids_exhausted", "single_item_child_present", "clear"],
+        "C14" => &["build_with_memory_hint", "leaf_batch_cut_by_memory_hint", "bucket_resplit", "tree_count_grown"],
+        "C17" => &["upgrade_with_pending_updates", "upgrade_without_pending_updates", "upgrade_aborted_then_redone"],
+        "C16" => &["fixture_loaded"],
+        "C08" => &["reader_opens", "reader_looked_while_writer_in_build", "reader_looked_while_writer_in_commit", "reader_reverifications_while_held"],
+        "C09" => &["post_crash_history"],
+        "C10" => &["clean_retry", "cancelled_in_InsertItemsInCurrentTrees", "cancelled_in_IncrementalIndexLargeDescendants", "cancelled_in_RemoveItemsFromExistingTrees"],
         "C19" => &["rejected_dimension", "append_rejected", "append_accepted", "del_absent", "rejected_query_dimension"],
         "C18" => &["metric_change", "metric_identity"],
         _ => &[],
